@@ -46,7 +46,7 @@ def schedule_search(ctx, prop, bad, lean_failed):
         ctx.violation("miri", "\n".join(body), True)
     else:
         body.append("search: Miri runs found no race")
-        ctx.violation("theorem", "\n".join(body), False)
+        ctx.defer_nfi("\n".join(body))
 
 
 def run(ctx):
